@@ -160,9 +160,11 @@ func Y(site string) {
 	}
 	// A goroutine that busy-waits for something that needs simulated TIME to
 	// pass (a timer, a deadline) would livelock the discrete-event clock: time
-	// only advances when nothing is runnable. Thousands of consecutive visits
-	// to the same few sites are such a spin; it is slowed down to one pass per
-	// simulated millisecond, as if it ran at finite speed.
+	// only advances when nothing is runnable. Hundreds of thousands of
+	// consecutive visits to the same few sites with the clock standing still
+	// are such a spin (a loop that drains a queue of some thousand entries is
+	// not, and must not be put to sleep: it may hold a lock); the spin is slowed
+	// down to one pass per simulated millisecond, as if it ran at finite speed.
 	hit := false
 	for i := range s.recent {
 		if s.recent[i] == site {
@@ -172,7 +174,7 @@ func Y(site string) {
 	}
 	if hit {
 		s.streak++
-		if s.streak > 4000 {
+		if s.streak > 300000 {
 			if now := time.Now(); !now.Equal(s.streakT) {
 				// simulated time moves (the loop sleeps by itself, e.g. the id
 				// generator waiting for its clock): not a livelock
